@@ -6,7 +6,7 @@ Transcribed from `/repo/jsonargparse/_actions.py` (`_ActionSubCommands.get_subco
 (`_parse_common`, `merge_config`, the `check_required` part of `validate`) and
 `_link_arguments.py` (`ActionLink.apply_parsing_links`, whose first statement is a
 `get_subcommand` call that removes left-over sections), as the code is NOW (after the
-`fix:` commits f6d3709 and 124a9c5).
+`fix:` commits f6d3709, 124a9c5, 96e4fb9 and adfb1a7).
 
 Configuration objects (`Namespace`) are finite trees `Cfg`; the dotted-key addressing with a
 `prefix` that the code uses is modelled by recursion on the sub-tree (C11 is the property that
@@ -169,6 +169,11 @@ inductive Err where
   | nosub (key : List String)
   /-- `TypeError('Key "<key>" is required but not included in config object or its value is None.')` -/
   | reqkey (key : List String)
+  /-- `NSKeyError('expected "<key>" to be one of {...}, but got: <value>.')` (fix 96e4fb9): an explicit value that is not a
+      subcommand name -/
+  | badname (key : List String)
+  /-- `TypeError('Expected the settings of subcommand "<key>" to be a mapping, but got: ...')` (fix adfb1a7) -/
+  | badsec (key : List String)
   /-- an exception that is not an argument error (`AttributeError` on a `None` sub-parser / a non-namespace section) -/
   | crash
 deriving DecidableEq, Repr, Inhabited
@@ -229,6 +234,8 @@ def getSub (h : SubHdr) (ns : List String) (fl : Flags) (pre : List String) (cfg
   let r := getSubCore h ns fl cfg
   if fl.fail then
     if r.sub.isNone && !h.required then .ok ⟨r.cfg, .none, [], r.warn⟩
+    -- if subcommand is not None and subcommand not in action._name_parser_map: raise (fix 96e4fb9)
+    else if r.sub.isSome && !validNameO ns r.sub then .error (.badname (pre ++ [h.dest]))
     else if h.required && !validNameO ns r.sub then .error (.nosub (pre ++ [h.dest]))
     else .ok r
   else .ok r
@@ -254,6 +261,13 @@ def mergeLayer (mode : Mode) (layer : Cfg) (n : String) (cfg : Cfg) : Except Err
     | some v => if v.truthy then .error .crash else .ok (insert n (.sec (merge [] layer)) cfg)
     | .none => .ok (insert n (.sec (merge [] layer)) cfg)
 
+/-- `if cfg.get(key) is not None: _check_subcommand_settings(key, cfg.get(key))` (fix adfb1a7) -/
+def checkSettings (key : List String) : Option Val → Except Err Unit
+  | some (.sec _) => .ok ()
+  | some .none => .ok ()
+  | .none => .ok ()
+  | some _ => .error (.badsec key)
+
 /-- store the section processed by the inner call (the inner call works in place on the same object) -/
 def writeBack (n : String) (inner : Cfg) (cfg : Cfg) : Cfg :=
   if isSecAt n cfg then insert n (.sec inner) cfg else cfg
@@ -273,12 +287,15 @@ def handleEach (lay : Mode → P → Cfg) (fl : Flags) (pre : List String) :
   | [], _, cfg => .ok cfg
   | (n, q) :: rest, todo, cfg =>
     if todo.contains n then
-      match mergeLayer fl.mode (lay fl.mode q) n cfg with
+      match checkSettings (pre ++ [n]) (lookup n cfg) with
       | .error e => .error e
-      | .ok cfg1 =>
-        match handle lay fl (pre ++ [n]) q (secOf (lookup n cfg1)) with
+      | .ok _ =>
+        match mergeLayer fl.mode (lay fl.mode q) n cfg with
         | .error e => .error e
-        | .ok inner => handleEach lay fl pre rest todo (writeBack n inner cfg1)
+        | .ok cfg1 =>
+          match handle lay fl (pre ++ [n]) q (secOf (lookup n cfg1)) with
+          | .error e => .error e
+          | .ok inner => handleEach lay fl pre rest todo (writeBack n inner cfg1)
     else handleEach lay fl pre rest todo cfg
 end
 
@@ -401,7 +418,7 @@ def applyDefaultCfg (single : Bool) (p : P) (tree cfg : Cfg) : Except Err Cfg :=
 
 /-! ### the argv path: `_ActionSubCommands.__call__`
 
-`namespace[dest] = name; namespace[name] = subparser.parse_args(rest, namespace=namespace.get(name).clone() if name in namespace else None,
+`namespace[dest] = name; namespace[name] = subparser.parse_args(rest, namespace=<checked clone of namespace.get(name), if not None>,
 _skip_validation=True, env, defaults)`.  Options and config arguments of the sub-parser's command line are option
 parsing (argparse), not selection: they are folded into `given` by the caller in command-line order
 (`items` below); what is modelled here is the selection skeleton of the command line: which
@@ -454,7 +471,11 @@ def argvCall (lay : Mode → P → Cfg) (single : Bool) (mode : Mode) (h : SubHd
         match parseArgs lay single mode false q av kvs with
         | .error e => .error e
         | .ok s => .ok (insert n (.sec s) cfg1)
-      | some _ => .error .crash     -- `namespace.get(name).clone()` on a non-namespace
+      | some .none =>                -- `subnamespace = None`
+        match parseArgs lay single mode false q av [] with
+        | .error e => .error e
+        | .ok s => .ok (insert n (.sec s) cfg1)
+      | some _ => .error (.badsec [n])     -- `_check_subcommand_settings(subcommand, subnamespace)` (fix adfb1a7)
       | .none =>
         match parseArgs lay single mode false q av [] with
         | .error e => .error e
@@ -609,13 +630,13 @@ def pickOffset : Nat := 0
 def removeTest : String := "subcommand and len(subcommand_keys) > 1"
 def removeFilter : String := "[k for k in subcommand_keys if k != subcommand]"
 def singleTest : String := "subcommand"
-def failTests : List String := ["subcommand is None and (not (fail_no_subcommand and action._required))", "action._required and subcommand not in action._name_parser_map"]
+def failTests : List String := ["subcommand is None and (not (fail_no_subcommand and action._required))", "subcommand is not None and subcommand not in action._name_parser_map", "action._required and subcommand not in action._name_parser_map"]
 def returns : List String := ["(subcommand_keys, [action._name_parser_map.get(s) for s in subcommand_keys])", "(None, None)", "(None, None)"]
 def layerCalls : List String := ["env: subnamespace = subparser.parse_env(defaults=defaults, _skip_validation=True)", "defaults: subnamespace = subparser.get_defaults(skip_validation=True)"]
 def mergeCall : String := "subparser.merge_config(cfg.get(key) or Namespace(), subnamespace)"
 def givenFirst : Bool := true
 def recurseCall : String := "_ActionSubCommands.handle_subcommands(subparser, cfg, env, defaults, key + '.', fail_no_subcommand=fail_no_subcommand)"
-def argvAction : List String := ["subcommand = values[0]", "arg_strings = values[1:]", "namespace[self.dest] = subcommand", "if subcommand in self._name_parser_map:\n    subparser = self._name_parser_map[subcommand]\n    subnamespace = namespace.get(subcommand).clone() if subcommand in namespace else None\n    kwargs = dict(_skip_validation=True, **parse_kwargs.get())\n    namespace[subcommand] = subparser.parse_args(arg_strings, namespace=subnamespace, **kwargs)"]
+def argvAction : List String := ["subcommand = values[0]", "arg_strings = values[1:]", "namespace[self.dest] = subcommand", "if subcommand in self._name_parser_map:\n    subparser = self._name_parser_map[subcommand]\n    subnamespace = namespace.get(subcommand) if subcommand in namespace else None\n    if subnamespace is not None:\n        _check_subcommand_settings(subcommand, subnamespace)\n        subnamespace = subnamespace.clone()\n    kwargs = dict(_skip_validation=True, **parse_kwargs.get())\n    namespace[subcommand] = subparser.parse_args(arg_strings, namespace=subnamespace, **kwargs)"]
 def applyConfigWith : List String := ["_ActionSubCommands.not_single_subcommand()", "previous_config_context(cfg)", "skip_apply_links()"]
 def applyConfigKwargs : List String := ["_fail_no_subcommand=False", "_skip_validation=True", "defaults=False", "env=False"]
 def defaultCfgParseCommon : List String := ["cfg=cfg", "defaults=False", "env=False", "fail_no_subcommand=False", "skip_required=True", "skip_validation=skip_validation", "with_meta=None"]
@@ -637,6 +658,8 @@ def parentParsersContext : List String := ["prev = parent_parsers.get()", "curr 
 def defaultConfigLoad : List String := ["if key and isinstance(cfg_dict, dict):\n    cfg_dict = cfg_dict.get(key, {})", "cfg_file = self._load_config_parser_mode(default_config_file.get_content(), key=key)", "cfg = self.merge_config(cfg_file, cfg)"]
 def envOverDefaults : List String := ["cfg = self.merge_config(cfg_env, cfg)"]
 def loadEnvVarsLoops : List String := ["env_var in env and isinstance(action, ActionConfigFile)", "env_var in env and isinstance(action, _ActionSubCommands)", "env_var in env and (not isinstance(action, (ActionConfigFile, _ActionSubCommands)))"]
+/-- added by later fixes: the settings check of `handle_subcommands` / the argv action (`checkSettings`) -/
+def settingsCheck : List String := ["if not isinstance(value, Namespace):\n    raise TypeError(f'Expected the settings of subcommand \"{key}\" to be a mapping, but got: {value!r}')", "if cfg.get(key) is not None:\n    _check_subcommand_settings(key, cfg.get(key))"]
 end Shape
 
 end Jap.Subcmd
